@@ -1941,7 +1941,8 @@ class Interp:
                 scal = (VInt, VReal, VBool, VStr)
                 if not (isinstance(tv, scal) and isinstance(fv, scal)):
                     raise Unsupported("non scalar")
-                merged = self.ite(self.truth(cv), tv, fv)
+                self._ifc_cond = self.truth(cv)
+                merged = self.ite(self._ifc_cond, tv, fv)
             except (Unsupported, TypeError, PyRaise):
                 if cv is None:
                     return False
@@ -1967,6 +1968,7 @@ class Interp:
                             self.exec_block(s.body, env)
                         return True
                     c = self.truth(cv)
+                    self._ifc_cond = c
                     x = unwrap(mk_const(call.args[0].value), lst.et)
                     lst.arr = z3.If(c, z3.Store(lst.arr, lst.n, x), lst.arr)
                     lst.n = z3.simplify(lst.n + z3.If(c, 1, 0))
@@ -1974,8 +1976,22 @@ class Interp:
         return False
 
     def ex_If(self, s, env):
+        self._ifc_cond = None
         if not self.ver.no_if_conversion and self.try_if_conversion(s, env):
-            for st in list(s.body) + list(s.orelse):
+            # vacuity guard: an if-converted arm counts as reached only when its condition is satisfiable here
+            # (otherwise dead code -- e.g. `if not math.isfinite(x)` on a real-valued float -- would pass unnoticed)
+            c = self._ifc_cond
+            t_ok = f_ok = True
+            if c is not None and not isinstance(c, bool):
+                cs = z3.simplify(c)
+                if z3.is_false(cs):
+                    t_ok = False
+                elif z3.is_true(cs):
+                    f_ok = False
+                else:
+                    t_ok = self.path.feasible(c)
+                    f_ok = self.path.feasible(z3.Not(c))
+            for st in (list(s.body) if t_ok else []) + (list(s.orelse) if f_ok else []):
                 self.ver.cover(st)
             return
         c = self.ev(s.test, env)
